@@ -167,6 +167,23 @@ func (h *harness) sectionRhel() {
 			r.Fail("", "rhel repository scanner on an unrelated CPE failed")
 			continue
 		}
+		// the same package indexed under two repositories (as a RHEL image with
+		// several content sets is): the advisory's repository first or last
+		mkIR2 := func(first, second *claircore.Repository, version string) *claircore.IndexReport {
+			a, b := *first, *second
+			a.ID, b.ID = "r1", "r2"
+			p := &claircore.Package{ID: "p1", Name: v.Package.Name, Version: version, Kind: claircore.BINARY, Module: v.Package.Module, Arch: archFor(v),
+				Source: &claircore.Package{ID: "p1s", Name: v.Package.Name + "-verifsrc", Kind: claircore.SOURCE, Version: version}}
+			if v.Package.Kind == claircore.SOURCE {
+				p.Name = v.Package.Name + "-verifbin"
+				p.Source.Name = v.Package.Name
+			}
+			return &claircore.IndexReport{
+				Packages:     map[string]*claircore.Package{"p1": p},
+				Repositories: map[string]*claircore.Repository{"r1": &a, "r2": &b},
+				Environments: map[string][]*claircore.Environment{"p1": {{PackageDB: "sqlite:var/lib/rpm", RepositoryIDs: []string{"r1", "r2"}}}},
+			}
+		}
 		mkIR := func(repo *claircore.Repository, version string) *claircore.IndexReport {
 			rp := *repo
 			rp.ID = "r1"
@@ -213,6 +230,28 @@ func (h *harness) sectionRhel() {
 			if err == nil && fixed[want] {
 				r.Fail("", key+": the fixed version itself is reported")
 			}
+		}
+		for _, order := range []string{"advisory's repository first", "advisory's repository last"} {
+			ir2 := mkIR2(repos[0], other[0], "0:0.0.1-1")
+			if order == "advisory's repository last" {
+				ir2 = mkIR2(other[0], repos[0], "0:0.0.1-1")
+			}
+			got, err := reportedNames(ir2)
+			if err != nil {
+				r.Fail("", key+": matching failed: "+err.Error())
+			} else if !got[want] {
+				r.Fail("", fmt.Sprintf("%s: the package is indexed under two repositories (%s and cpe:/a:redhat:verif_unrelated_product:1, %s) and the advisory is not reported", key, v.Repo.Name, order))
+			}
+		}
+		// both repositories from ONE content manifest, through the real repository scanner
+		if both, err := rhelRepos(ctx, []string{"cpe:/a:redhat:verif_unrelated_product:1", v.Repo.Name}); err == nil && len(both) == 2 {
+			for _, ir2 := range []*claircore.IndexReport{mkIR2(both[0], both[1], "0:0.0.1-1"), mkIR2(both[1], both[0], "0:0.0.1-1")} {
+				if got, err := reportedNames(ir2); err == nil && !got[want] {
+					r.Fail("", key+": content manifest mapped to two CPEs: the advisory is not reported for a package listed under both repositories")
+				}
+			}
+		} else if v.Repo.Name != "cpe:/a:redhat:verif_unrelated_product:1" {
+			r.Fail("", fmt.Sprintf("rhel repository scanner on a content set mapped to two CPEs: %d repositories, err=%v", len(both), err))
 		}
 		un, err := reportedNames(mkIR(other[0], "0:0.0.1-1"))
 		if err == nil && len(un) != 0 {
